@@ -254,8 +254,7 @@ def apply_op(world, p, op):
             return p.get_filter_function_derivative(W[1].copy(), n_oper_identifiers=['no such operator'])
         return ff.infidelity(p, S[1], W[1].copy(), which='nonsense')
     if name == 'Infidelity':
-        g, w, tl, ci = a
-        assert tl == world.traceless
+        g, w, ci = a
         return ff.infidelity(p, S[g], W[g].copy(), which=pw(w), cache_intermediates=ci)
     if name == 'DecayAmplitudes':
         g, w, ci = a
@@ -387,7 +386,7 @@ def coq_op(world, op):
     if name == 'BadParams':
         return 'BadParams'
     if name == 'Infidelity':
-        return '(Infidelity %s %s %s %s)' % (G(a[0]), a[1], cb(a[2]), cb(a[3]))
+        return '(Infidelity %s %s %s)' % (G(a[0]), a[1], cb(a[2]))
     if name == 'DecayAmplitudes':
         return '(DecayAmplitudes %s %s %s)' % (G(a[0]), a[1], cb(a[2]))
     if name == 'Cumulant':
@@ -463,8 +462,8 @@ def alphabet(world, with_bad_user=False, small=False):
         ops.append(('CachePhases', g, None))
         ops.append(('CachePhases', g, True))
         for ci in B:
-            ops.append(('Infidelity', g, 'Total', world.traceless, ci))
-        ops.append(('Infidelity', g, 'Correlations', world.traceless, False))
+            ops.append(('Infidelity', g, 'Total', ci))
+        ops.append(('Infidelity', g, 'Correlations', False))
         ops.append(('DecayAmplitudes', g, 'Total', False))
         ops.append(('DecayAmplitudes', g, 'Correlations', False))
         ops.append(('Cumulant', g, 'Total', False, None))
